@@ -335,9 +335,9 @@ theorem siblings_inherit_alike_false : ¬ InstanceAtEveryRuntimeType := by
   | ok out =>
     rw [hm] at hw
     cases hfo : out.fragments with
-    | none => rw [hfo] at hw; cases hw
+    | none => simp only [hfo] at hw; cases hw
     | some fo =>
-      rw [hfo] at hw
+      simp only [hfo] at hw
       have := (h id enumOK_id sEnv 10 [sA] out hm).2 fo hfo
       rw [this] at hw
       cases hw
